@@ -79,6 +79,71 @@ theorem C12_pingslot_total (c : BandCfg) (hc : c ∈ Generated.allConfigs) (ops 
   case cn470 => exact BandProofs.idxInt_ne_panic cn470PingSlots _ hk0 (by simp [cn470PingSlots]; omega)
   all_goals (intro h; cases h)
 
+/-- the bands whose RX1 channel is the uplink index modulo 8 / 48 have at least that many downlink channels in the regenerated tables -/
+theorem C12_rx1_downlinks : ∀ c ∈ Generated.allConfigs,
+    ((c.family = .us915 ∨ c.family = .au915) → 8 ≤ c.down.length) ∧ (c.family = .cn470 → 48 ≤ c.down.length) := by
+  decide +kernel
+
+/-- the RX1-frequency accessor never panics: for every regenerated configuration, after ANY history of AddChannel / Disable / Enable and for
+every uplink frequency, `GetRX1FrequencyForUplinkFrequency` yields a value or an error — the index (uplink channel mod 8 / mod 48) it uses
+into the downlink list is always inside it -/
+theorem C12_rx1freq_total (c : BandCfg) (hc : c ∈ Generated.allConfigs) (ops : List BandProofs.BandOp) (f : Nat) :
+    (BandProofs.run c.init ops).rx1Frequency f ≠ panic := by
+  have hcfg : (BandProofs.run c.init ops).cfg = c := (BandProofs.inv_run c ops).1
+  have hlen : c.down.length ≤ (BandProofs.run c.init ops).down.length := BandProofs.run_down_len c.init ops
+  obtain ⟨hus, hcn⟩ := C12_rx1_downlinks c hc
+  generalize hb : BandProofs.run c.init ops = b at *
+  have key : ∀ m : Int, 0 < m → (m : Int) ≤ b.down.length → ∀ i : Int, 0 ≤ i → idxInt b.down (Int.tmod i m) ≠ panic := by
+    intro m hm hml i hi
+    have h1 : Int.tmod i m = i % m := Int.tmod_eq_emod_of_nonneg hi
+    have h2 : 0 ≤ i % m := Int.emod_nonneg i (by omega)
+    have h3 : i % m < m := Int.emod_lt_of_pos i hm
+    exact BandProofs.idxInt_ne_panic b.down _ (by omega) (by omega)
+  simp only [BandState.rx1Frequency, hcfg]
+  cases hf : c.family <;> simp only []
+  case us915 =>
+    cases hi : b.getUplinkChannelIndex f true with
+    | ok i =>
+      obtain ⟨n, hn, _⟩ := BandProofs.lookup_freq_sound b f true i hi
+      have := key 8 (by decide) (by have := hus (Or.inl hf); omega) i (by omega)
+      simp only [Outcome.ok_bind, BandState.rx1ChannelIndex, hcfg, hf]
+      cases hj : idxInt b.down (Int.tmod i 8) with
+      | ok ch => simp
+      | err => simp
+      | panic => exact absurd hj this
+    | err => simp
+    | panic => simp only [BandState.getUplinkChannelIndex] at hi; split at hi <;> cases hi
+  case au915 =>
+    cases hi : b.getUplinkChannelIndex f true with
+    | ok i =>
+      obtain ⟨n, hn, _⟩ := BandProofs.lookup_freq_sound b f true i hi
+      have := key 8 (by decide) (by have := hus (Or.inr hf); omega) i (by omega)
+      simp only [Outcome.ok_bind, BandState.rx1ChannelIndex, hcfg, hf]
+      cases hj : idxInt b.down (Int.tmod i 8) with
+      | ok ch => simp
+      | err => simp
+      | panic => exact absurd hj this
+    | err => simp
+    | panic => simp only [BandState.getUplinkChannelIndex] at hi; split at hi <;> cases hi
+  case cn470 =>
+    cases hi : b.getUplinkChannelIndex f true with
+    | ok i =>
+      obtain ⟨n, hn, _⟩ := BandProofs.lookup_freq_sound b f true i hi
+      have := key 48 (by decide) (by have := hcn hf; omega) i (by omega)
+      simp only [Outcome.ok_bind, BandState.rx1ChannelIndex, hcfg, hf]
+      cases hj : idxInt b.down (Int.tmod i 48) with
+      | ok ch => simp
+      | err => simp
+      | panic => exact absurd hj this
+    | err => simp
+    | panic => simp only [BandState.getUplinkChannelIndex] at hi; split at hi <;> cases hi
+  all_goals (intro h; cases h)
+
+/-- … and the RX1 channel-index accessor answers for every integer -/
+theorem C12_rx1chan_total (b : BandState) (i : Int) : b.rx1ChannelIndex i ≠ panic := by
+  simp only [BandState.rx1ChannelIndex]
+  split <;> (intro h; cases h)
+
 /-! non-vacuity -/
 example : Generated.allConfigs.length = 56 := by decide
 example : (Generated.allConfigs.map fun c => c.up.length).sum > 900 := by decide +kernel
